@@ -1,55 +1,112 @@
 /-
   Helper lemmas for the chunk-queue model (C17).
-  Part 1: structural accounting — the counters always equal the bytes the
-          chunks still hold (`QWF`), through every operation and fault.
+  Part 1: exact accounting — the counters always equal the bytes the chunks
+          still hold and every file chunk lies inside its file (`QV`),
+          through every operation and every fault schedule.
 -/
 import LtVerif.Model.Cq
 namespace LtVerif.Cq
 
-/-! ## well-formed chunks and queues -/
+/-! ## invariants -/
 
-/-- the read offset never passes the end of the chunk -/
-def Chunk.WF : Chunk → Prop
+/-- current size of file `fid` -/
+def sz (w : World) (fid : Nat) : Nat := (w.files fid).content.length
+
+/-- the read offset never passes the end of the chunk; a file chunk names an
+    existing file and ends inside it -/
+def Chunk.Valid (w : World) : Chunk → Prop
   | .mem d off _ => off ≤ d.length
-  | .file _ off len _ _ => off ≤ len
+  | .file fid off len _ _ => fid < w.nfiles ∧ off ≤ len ∧ len ≤ sz w fid
 
-def ChunksWF (cs : List Chunk) : Prop := ∀ c ∈ cs, c.WF
+def ValidAll (w : World) (cs : List Chunk) : Prop := ∀ c ∈ cs, c.Valid w
 
 /-- exact accounting: bytes_in − bytes_out = bytes still held by the chunks -/
-structure QWF (q : Cq) : Prop where
-  wf : ChunksWF q.chunks
+structure QV (w : World) (q : Cq) : Prop where
+  valid : ValidAll w q.chunks
   len : q.bytesIn - q.bytesOut = (remSum q.chunks : Int)
 
-theorem ChunksWF.nil : ChunksWF [] := by intro c h; cases h
+/-- ids from `nfiles` on are unused: such files are empty -/
+def Fresh (w : World) : Prop := ∀ fid, w.nfiles ≤ fid → sz w fid = 0
 
-theorem ChunksWF.cons {c : Chunk} {cs : List Chunk} (h : c.WF) (hs : ChunksWF cs) :
-    ChunksWF (c :: cs) := by
+/-- files only ever grow, ids are never reused -/
+structure Grows (w w' : World) : Prop where
+  nfiles : w.nfiles ≤ w'.nfiles
+  size : ∀ fid, sz w fid ≤ sz w' fid
+
+/-- no file content changed (descriptors, names, pools, schedules may have) -/
+structure SameFiles (w w' : World) : Prop where
+  nfiles : w'.nfiles = w.nfiles
+  content : ∀ fid, (w'.files fid).content = (w.files fid).content
+
+theorem SameFiles.refl (w : World) : SameFiles w w := ⟨rfl, fun _ => rfl⟩
+
+theorem SameFiles.trans {a b c : World} (h1 : SameFiles a b) (h2 : SameFiles b c) : SameFiles a c :=
+  ⟨h2.nfiles.trans h1.nfiles, fun fid => (h2.content fid).trans (h1.content fid)⟩
+
+theorem SameFiles.sz {w w' : World} (h : SameFiles w w') (fid : Nat) : sz w' fid = sz w fid := by
+  simp [Cq.sz, h.content fid]
+
+theorem SameFiles.grows {w w' : World} (h : SameFiles w w') : Grows w w' :=
+  ⟨by rw [h.nfiles]; exact Nat.le_refl _, fun fid => by rw [h.sz fid]; exact Nat.le_refl _⟩
+
+theorem SameFiles.fresh {w w' : World} (h : SameFiles w w') (hf : Fresh w) : Fresh w' := by
+  intro fid hle
+  rw [h.sz fid]
+  exact hf fid (by rw [← h.nfiles]; exact hle)
+
+theorem Grows.refl (w : World) : Grows w w := (SameFiles.refl w).grows
+
+theorem Grows.trans {a b c : World} (h1 : Grows a b) (h2 : Grows b c) : Grows a c :=
+  ⟨Nat.le_trans h1.nfiles h2.nfiles, fun fid => Nat.le_trans (h1.size fid) (h2.size fid)⟩
+
+theorem Chunk.Valid.mono {w w' : World} {c : Chunk} (h : c.Valid w) (g : Grows w w') : c.Valid w' := by
+  cases c with
+  | mem => exact h
+  | file fid off len t fd =>
+    obtain ⟨h1, h2, h3⟩ := h
+    exact ⟨Nat.lt_of_lt_of_le h1 g.nfiles, h2, Nat.le_trans h3 (g.size fid)⟩
+
+theorem ValidAll.mono {w w' : World} {cs : List Chunk} (h : ValidAll w cs) (g : Grows w w') :
+    ValidAll w' cs := fun c hc => (h c hc).mono g
+
+theorem QV.mono {w w' : World} {q : Cq} (h : QV w q) (g : Grows w w') : QV w' q :=
+  ⟨h.valid.mono g, h.len⟩
+
+theorem ValidAll.nil (w : World) : ValidAll w [] := by intro c h; cases h
+
+theorem ValidAll.cons {w : World} {c : Chunk} {cs : List Chunk} (h : c.Valid w) (hs : ValidAll w cs) :
+    ValidAll w (c :: cs) := by
   intro x hx
   cases hx with
   | head => exact h
   | tail _ hx => exact hs x hx
 
-theorem ChunksWF.head {c : Chunk} {cs : List Chunk} (h : ChunksWF (c :: cs)) : c.WF :=
+theorem ValidAll.head {w : World} {c : Chunk} {cs : List Chunk} (h : ValidAll w (c :: cs)) : c.Valid w :=
   h c (List.mem_cons_self ..)
 
-theorem ChunksWF.tail {c : Chunk} {cs : List Chunk} (h : ChunksWF (c :: cs)) : ChunksWF cs :=
-  fun x hx => h x (List.mem_cons_of_mem _ hx)
+theorem ValidAll.tail {w : World} {c : Chunk} {cs : List Chunk} (h : ValidAll w (c :: cs)) :
+    ValidAll w cs := fun x hx => h x (List.mem_cons_of_mem _ hx)
 
-theorem ChunksWF.append {a b : List Chunk} (ha : ChunksWF a) (hb : ChunksWF b) :
-    ChunksWF (a ++ b) := by
+theorem ValidAll.append {w : World} {a b : List Chunk} (ha : ValidAll w a) (hb : ValidAll w b) :
+    ValidAll w (a ++ b) := by
   intro x hx
   rcases List.mem_append.mp hx with h | h
   · exact ha x h
   · exact hb x h
 
-theorem ChunksWF.left {a b : List Chunk} (h : ChunksWF (a ++ b)) : ChunksWF a :=
+theorem ValidAll.left {w : World} {a b : List Chunk} (h : ValidAll w (a ++ b)) : ValidAll w a :=
   fun x hx => h x (List.mem_append_left _ hx)
 
-theorem ChunksWF.right {a b : List Chunk} (h : ChunksWF (a ++ b)) : ChunksWF b :=
+theorem ValidAll.right {w : World} {a b : List Chunk} (h : ValidAll w (a ++ b)) : ValidAll w b :=
   fun x hx => h x (List.mem_append_right _ hx)
 
-theorem ChunksWF.dropLast {cs : List Chunk} (h : ChunksWF cs) : ChunksWF cs.dropLast :=
+theorem ValidAll.dropLast {w : World} {cs : List Chunk} (h : ValidAll w cs) : ValidAll w cs.dropLast :=
   fun x hx => h x (List.dropLast_subset _ hx)
+
+theorem ValidAll.single {w : World} {c : Chunk} (h : c.Valid w) : ValidAll w [c] :=
+  ValidAll.cons h (ValidAll.nil w)
+
+/-! ## list bookkeeping -/
 
 @[simp] theorem remSum_nil : remSum [] = 0 := rfl
 @[simp] theorem remSum_cons (c : Chunk) (cs : List Chunk) : remSum (c :: cs) = c.rem + remSum cs := rfl
@@ -60,25 +117,308 @@ theorem ChunksWF.dropLast {cs : List Chunk} (h : ChunksWF cs) : ChunksWF cs.drop
   | cons c cs ih => simp [ih, Nat.add_assoc]
 
 theorem split_last {cs : List Chunk} {c : Chunk} (h : cs.getLast? = some c) :
-    cs = cs.dropLast ++ [c] :=
-  (List.dropLast_append_getLast? c (by simp [h])).symm
+    cs = cs.dropLast ++ [c] := by
+  obtain ⟨ys, rfl⟩ := List.getLast?_eq_some_iff.mp h
+  simp
 
 theorem remSum_last {cs : List Chunk} {c : Chunk} (h : cs.getLast? = some c) :
     remSum cs = remSum cs.dropLast + c.rem := by
   conv => lhs; rw [split_last h]
   simp
 
-theorem wf_last {cs : List Chunk} {c : Chunk} (hw : ChunksWF cs) (h : cs.getLast? = some c) : c.WF :=
+theorem valid_last {w : World} {cs : List Chunk} {c : Chunk} (hw : ValidAll w cs)
+    (h : cs.getLast? = some c) : c.Valid w :=
   hw c (by rw [split_last h]; simp)
 
 @[simp] theorem remSum_setLast (cs : List Chunk) (c : Chunk) :
     remSum (setLast cs c) = remSum cs.dropLast + c.rem := by simp [setLast]
 
-theorem wf_setLast {cs : List Chunk} {c : Chunk} (hw : ChunksWF cs) (hc : c.WF) :
-    ChunksWF (setLast cs c) :=
-  ChunksWF.append hw.dropLast (ChunksWF.cons hc ChunksWF.nil)
+theorem valid_setLast {w : World} {cs : List Chunk} {c : Chunk} (hw : ValidAll w cs) (hc : c.Valid w) :
+    ValidAll w (setLast cs c) :=
+  ValidAll.append hw.dropLast (ValidAll.single hc)
 
-theorem QWF.empty (ts ti : Nat) : QWF { chunks := [], bytesIn := 0, bytesOut := 0, tempSize := ts, tdIdx := ti } :=
-  ⟨ChunksWF.nil, by simp⟩
+theorem Chunk.rem_adv {w : World} {c : Chunk} {n : Nat} (hn : n ≤ c.rem) (hw : c.Valid w) :
+    (c.adv n).rem = c.rem - n ∧ (c.adv n).Valid w := by
+  cases c <;> simp only [Chunk.adv, Chunk.rem, Chunk.Valid] at * <;> omega
+
+theorem mem_chunk_valid (w : World) (d : Bytes) (cap : Nat) : (Chunk.mem d 0 cap).Valid w := by
+  simp [Chunk.Valid]
+
+theorem mem_chunk_rem (d : Bytes) (cap : Nat) : (Chunk.mem d 0 cap).rem = d.length := by
+  simp [Chunk.rem]
+
+/-! ## world primitives that leave file contents alone -/
+
+@[simp] theorem setFile_files_same (w : World) (fid : Nat) (f : File) : (w.setFile fid f).files fid = f := by
+  simp [World.setFile]
+
+theorem setFile_files_other (w : World) {fid i : Nat} (f : File) (h : i ≠ fid) :
+    (w.setFile fid f).files i = w.files i := by
+  simp [World.setFile, h]
+
+theorem setFile_sameFiles (w : World) (fid : Nat) (f : File) (h : f.content = (w.files fid).content) :
+    SameFiles w (w.setFile fid f) := by
+  refine ⟨rfl, fun i => ?_⟩
+  by_cases hi : i = fid
+  · subst hi; simp [h]
+  · rw [setFile_files_other w f hi]
+
+theorem openFd_same (w : World) (fid : Nat) : SameFiles w (w.openFd fid) :=
+  setFile_sameFiles w fid _ rfl
+
+theorem closeFd_same (w : World) (fid : Nat) : SameFiles w (w.closeFd fid) :=
+  setFile_sameFiles w fid _ rfl
+
+theorem unlink_same (w : World) (fid : Nat) : SameFiles w (w.unlink fid) :=
+  setFile_sameFiles w fid _ rfl
+
+theorem pushOversized_same (w : World) (n : Nat) : SameFiles w (pushOversized w n) := by
+  unfold pushOversized
+  split
+  · exact ⟨rfl, fun _ => rfl⟩
+  · split
+    · split
+      · exact ⟨rfl, fun _ => rfl⟩
+      · exact SameFiles.refl w
+    · exact SameFiles.refl w
+
+theorem acquire_same (w : World) (n : Nat) : SameFiles w (acquire w n).1 := by
+  unfold acquire
+  split
+  · exact SameFiles.refl w
+  · split
+    · dsimp only
+      split
+      · exact ⟨rfl, fun _ => rfl⟩
+      · exact SameFiles.refl w
+    · exact SameFiles.refl w
+
+theorem release_same (w : World) (c : Chunk) : SameFiles w (release w c) := by
+  cases c with
+  | mem d off cap =>
+    simp only [release]
+    split
+    · exact SameFiles.refl w
+    · split
+      · exact pushOversized_same w cap
+      · exact SameFiles.refl w
+  | file fid off len t fd =>
+    simp only [release]
+    have h1 : SameFiles w (if t = true then w.unlink fid else w) := by
+      split
+      · exact unlink_same w fid
+      · exact SameFiles.refl w
+    split
+    · exact h1.trans (closeFd_same _ fid)
+    · exact h1
+
+theorem releaseAll_same (w : World) (cs : List Chunk) : SameFiles w (releaseAll w cs) := by
+  induction cs generalizing w with
+  | nil => exact SameFiles.refl w
+  | cons c cs ih => exact (release_same w c).trans (ih _)
+
+theorem popM_same (w : World) : SameFiles w (popM w).1 := by
+  unfold popM; split <;> exact ⟨rfl, fun _ => rfl⟩
+
+theorem popW_same (w : World) : SameFiles w (popW w).1 := by
+  unfold popW; split <;> exact ⟨rfl, fun _ => rfl⟩
+
+/-! ## append family -/
+
+theorem pushChunk_qv {w : World} {q : Cq} {c : Chunk} {n : Nat} (hq : QV w q) (hc : c.Valid w)
+    (hn : c.rem = n) : QV w (pushChunk q c n) := by
+  refine ⟨ValidAll.append hq.valid (ValidAll.single hc), ?_⟩
+  have := hq.len
+  simp only [pushChunk, remSum_append, remSum_cons, remSum_nil]
+  omega
+
+theorem appendMemExtend_qv {w : World} {q q' : Cq} {d : Bytes} (h : appendMemExtend q d = some q')
+    (hq : QV w q) : QV w q' := by
+  unfold appendMemExtend at h
+  split at h
+  · cases h; exact hq
+  · split at h
+    · rename_i data off cap hl
+      split at h
+      · cases h
+        have hw := valid_last hq.valid hl
+        have hr := remSum_last hl
+        have := hq.len
+        simp only [Chunk.Valid] at hw
+        refine ⟨valid_setLast hq.valid (by simp only [Chunk.Valid, List.length_append]; omega), ?_⟩
+        simp only [remSum_setLast, Chunk.rem, List.length_append] at *
+        omega
+      · cases h
+    · cases h
+
+theorem appendMem_spec (w : World) (q : Cq) (d : Bytes) :
+    SameFiles w (appendMem w q d).1 ∧ (QV w q → QV (appendMem w q d).1 (appendMem w q d).2) := by
+  unfold appendMem
+  split
+  · rename_i q' h
+    refine ⟨SameFiles.refl w, fun hq => ?_⟩
+    split at h
+    · exact appendMemExtend_qv h hq
+    · cases h
+  · have hs := acquire_same w (d.length + 1)
+    exact ⟨hs, fun hq => pushChunk_qv (hq.mono hs.grows) (mem_chunk_valid ..) (mem_chunk_rem ..)⟩
+
+theorem appendMemMin_spec (w : World) (q : Cq) (d : Bytes) :
+    SameFiles w (appendMemMin w q d).1 ∧ (QV w q → QV (appendMemMin w q d).1 (appendMemMin w q d).2) := by
+  unfold appendMemMin
+  split
+  · rename_i q' h
+    refine ⟨SameFiles.refl w, fun hq => ?_⟩
+    split at h
+    · exact appendMemExtend_qv h hq
+    · cases h
+  · exact ⟨SameFiles.refl w, fun hq => pushChunk_qv hq (mem_chunk_valid ..) (mem_chunk_rem ..)⟩
+
+theorem appendBuffer_spec (w : World) (q : Cq) (d : Bytes) :
+    SameFiles w (appendBuffer w q d).1 ∧ (QV w q → QV (appendBuffer w q d).1 (appendBuffer w q d).2) := by
+  unfold appendBuffer
+  split
+  · rename_i q' h
+    refine ⟨SameFiles.refl w, fun hq => ?_⟩
+    split at h
+    · exact appendMemExtend_qv h hq
+    · cases h
+  · have hs := acquire_same w w.cs
+    exact ⟨hs, fun hq => pushChunk_qv (hq.mono hs.grows) (mem_chunk_valid ..) (mem_chunk_rem ..)⟩
+
+theorem appendBufferOpen_spec (w : World) (q : Cq) (d : Bytes) :
+    SameFiles w (appendBufferOpen w q d).1 ∧
+      (QV w q → QV (appendBufferOpen w q d).1 (appendBufferOpen w q d).2) := by
+  have hs := acquire_same w w.cs
+  exact ⟨hs, fun hq => pushChunk_qv (hq.mono hs.grows) (mem_chunk_valid ..) (mem_chunk_rem ..)⟩
+
+theorem getUseMemory_spec (w : World) (q : Cq) (req : Nat) (data : Bytes) :
+    SameFiles w (getUseMemory w q req data).1 ∧
+      (QV w q → QV (getUseMemory w q req data).1 (getUseMemory w q req data).2.1) := by
+  unfold getUseMemory
+  dsimp only
+  split
+  · -- data goes into the existing last chunk
+    rename_i old off cap hfit
+    split
+    · exact ⟨SameFiles.refl w, id⟩
+    · refine ⟨SameFiles.refl w, fun hq => ?_⟩
+      have hl : q.chunks.getLast? = some (.mem old off cap) := by
+        revert hfit
+        split
+        · rename_i o2 off2 cap2 hl
+          split
+          · intro h; cases h; exact hl
+          · intro h; cases h
+        · intro h; cases h
+      have hw := valid_last hq.valid hl
+      have hr := remSum_last hl
+      have := hq.len
+      simp only [Chunk.Valid] at hw
+      refine ⟨valid_setLast hq.valid (by simp only [Chunk.Valid, List.length_append]; omega), ?_⟩
+      simp only [remSum_setLast, Chunk.rem, List.length_append] at *
+      omega
+  · -- a new chunk was opened
+    have hs := acquire_same w (if req = 0 then w.cs / 2 else req)
+    split
+    · exact ⟨hs.trans (release_same _ _), fun hq => hq.mono (hs.trans (release_same _ _)).grows⟩
+    · split
+      · rename_i old off pcap hl
+        split
+        · exact ⟨hs, fun hq => pushChunk_qv (hq.mono hs.grows) (mem_chunk_valid ..) (mem_chunk_rem ..)⟩
+        · refine ⟨hs.trans (release_same _ _), fun hq => ?_⟩
+          have hw := valid_last hq.valid hl
+          have hr := remSum_last hl
+          have := hq.len
+          simp only [Chunk.Valid] at hw
+          refine QV.mono ⟨valid_setLast hq.valid
+            (by simp only [Chunk.Valid, List.length_append]; omega), ?_⟩ (hs.trans (release_same _ _)).grows
+          simp only [remSum_setLast, Chunk.rem, List.length_append] at *
+          omega
+      · exact ⟨hs, fun hq => pushChunk_qv (hq.mono hs.grows) (mem_chunk_valid ..) (mem_chunk_rem ..)⟩
+
+theorem appendFile_spec (w : World) (q : Cq) (fid off len : Nat) (fd : Bool) :
+    SameFiles w (appendFile w q fid off len fd).1 ∧
+      (QV w q → fid < w.nfiles → off + len ≤ sz w fid →
+        QV (appendFile w q fid off len fd).1 (appendFile w q fid off len fd).2) := by
+  unfold appendFile
+  split
+  · have hs : SameFiles w (if fd = true then w.openFd fid else w) := by
+      split
+      · exact openFd_same w fid
+      · exact SameFiles.refl w
+    refine ⟨hs, fun hq h1 h2 => pushChunk_qv (hq.mono hs.grows) ?_ (by simp [Chunk.rem])⟩
+    simp only [Chunk.Valid]
+    exact ⟨by rw [hs.nfiles]; exact h1, by omega, by rw [hs.sz]; exact h2⟩
+  · exact ⟨SameFiles.refl w, fun hq _ _ => hq⟩
+
+theorem appendChunkqueue_qv {w : World} {dest src : Cq} (hd : QV w dest) (hs : QV w src) :
+    QV w (appendChunkqueue dest src).1 ∧ QV w (appendChunkqueue dest src).2 := by
+  unfold appendChunkqueue
+  split
+  · exact ⟨hd, hs⟩
+  · have h1 := hd.len
+    have h2 := hs.len
+    refine ⟨⟨ValidAll.append hd.valid hs.valid, ?_⟩, ⟨ValidAll.nil w, ?_⟩⟩
+    · simp only [Cq.length, remSum_append]; omega
+    · simp
+
+/-! ## consume / compact -/
+
+theorem mwLoop_spec (w : World) (cs : List Chunk) (n : Nat) :
+    SameFiles w (mwLoop w cs n).1 ∧
+      (ValidAll w cs → ValidAll (mwLoop w cs n).1 (mwLoop w cs n).2 ∧
+        remSum (mwLoop w cs n).2 = remSum cs - n) := by
+  induction cs generalizing w n with
+  | nil => exact ⟨SameFiles.refl w, fun _ => ⟨ValidAll.nil w, by simp [mwLoop]⟩⟩
+  | cons c rest ih =>
+    simp only [mwLoop]
+    split
+    · rename_i hge
+      have hr := release_same w c
+      obtain ⟨hs, hv⟩ := ih (release w c) (n - c.rem)
+      refine ⟨hr.trans hs, fun hval => ?_⟩
+      obtain ⟨h1, h2⟩ := hv (hval.tail.mono hr.grows)
+      refine ⟨h1, ?_⟩
+      rw [h2]; simp only [remSum_cons]; omega
+    · rename_i hlt
+      refine ⟨SameFiles.refl w, fun hval => ?_⟩
+      obtain ⟨h1, h2⟩ := Chunk.rem_adv (n := n) (by omega) hval.head
+      exact ⟨ValidAll.cons h2 hval.tail, by simp only [remSum_cons, h1]; omega⟩
+
+theorem markWritten_spec (w : World) (q : Cq) (n : Nat) :
+    SameFiles w (markWritten w q n).1 ∧
+      (QV w q → n ≤ remSum q.chunks → QV (markWritten w q n).1 (markWritten w q n).2) := by
+  obtain ⟨hs, hv⟩ := mwLoop_spec w q.chunks n
+  refine ⟨hs, fun hq hn => ?_⟩
+  obtain ⟨h1, h2⟩ := hv hq.valid
+  have := hq.len
+  refine ⟨h1, ?_⟩
+  simp only [markWritten, h2]
+  omega
+
+theorem rfLoop_spec (w : World) (cs : List Chunk) :
+    SameFiles w (rfLoop w cs).1 ∧
+      (ValidAll w cs → ValidAll (rfLoop w cs).1 (rfLoop w cs).2 ∧ remSum (rfLoop w cs).2 = remSum cs) := by
+  induction cs generalizing w with
+  | nil => exact ⟨SameFiles.refl w, fun _ => ⟨ValidAll.nil w, rfl⟩⟩
+  | cons c rest ih =>
+    simp only [rfLoop]
+    split
+    · rename_i h0
+      have hr := release_same w c
+      obtain ⟨hs, hv⟩ := ih (release w c)
+      refine ⟨hr.trans hs, fun hval => ?_⟩
+      obtain ⟨h1, h2⟩ := hv (hval.tail.mono hr.grows)
+      exact ⟨h1, by rw [h2]; simp [h0]⟩
+    · exact ⟨SameFiles.refl w, fun hval => ⟨hval, rfl⟩⟩
+
+theorem removeFinished_spec (w : World) (q : Cq) :
+    SameFiles w (removeFinished w q).1 ∧ (QV w q → QV (removeFinished w q).1 (removeFinished w q).2) := by
+  obtain ⟨hs, hv⟩ := rfLoop_spec w q.chunks
+  refine ⟨hs, fun hq => ?_⟩
+  obtain ⟨h1, h2⟩ := hv hq.valid
+  exact ⟨h1, by simp only [removeFinished, h2]; exact hq.len⟩
+
 
 end LtVerif.Cq
